@@ -280,6 +280,19 @@ def run(ctx: Ctx) -> Outcome:
         for rname, root in (("Parent", mod.Parent), ("dict[str,Parent]", dict[str, mod.Parent]), ("Child", mod.Child)):
             events.append(observe(root, None, [("memoised", root)]))
             meta.append({"late": shape, "root": rname})
+    # a module replaced by another module object of the same name (a reload, a plugin loaded twice): the graph of the new
+    # module's class is about the new class -- what a deferred node denotes is evaluated where the class lives *now*
+    name = "verif_reloaded"
+    for gen, vt in ((1, "int"), (2, "decimal.Decimal"), (3, "str")):
+        mod = pytypes.ModuleType(name)
+        sys.modules[name] = mod
+        exec(compile("import dataclasses, decimal, typing\n@dataclasses.dataclass\nclass Node:\n"
+                     f"    v: {vt}\n    nxt: 'typing.Optional[Node]' = None\n    kids: 'list[Node]' = dataclasses.field(default_factory=list)\n",
+                     name, "exec", dont_inherit=True), mod.__dict__)
+        for rname, root in (("Node", mod.Node), ("list[Node]", list[mod.Node])):
+            events.append(observe(root, None, [("memoised", root)]))
+            meta.append({"late": "reload", "root": f"{rname} generation {gen}"})
+    sys.modules.pop(name, None)
     # passive source: every root the repository's own test suite hands to static_order (recorded by a pytest plugin)
     from .. import suite
     rec = suite.record()
